@@ -3,7 +3,7 @@
 usage: tools/run_seeds.py [seed ...]"""
 import json, os, subprocess, sys, time
 os.chdir("/verif")
-seeds = sys.argv[1:] or sorted(d for d in os.listdir("seeded") if os.path.isdir("seeded/" + d))
+seeds = sys.argv[1:] or sorted(d for d in os.listdir("seeded") if os.path.isdir("seeded/" + d) and d.startswith("C"))
 rows = []
 for sid in seeds:
     meta = json.load(open("seeded/%s/meta.json" % sid))
